@@ -343,6 +343,10 @@ func checkC16(c *Check) {
 	ruleDependentSequential(c, p, "R16.1")
 	ruleDictProvenance(c, p, "R16.2")
 	ruleWindowRetention(c, p, "R16.3")
+	// the dictionary path of the block decoder: reads stay inside dict[0:len] and the
+	// underflow error is raised only for offsets that really reach before the dictionary
+	c.RuleDoc["R16.6"] = "assembly decoder: dictionary accesses in bounds, dictionary error exit justified"
+	runAsm(c, p, []asmCase{{false, false}}, map[string]string{"exit": "R16.6", "access": "R16.6"})
 }
 
 func ruleDependentSequential(c *Check, p *Program, rule string) {
